@@ -1,6 +1,7 @@
 import AnySyncModel.Core.Wire
 import AnySyncModel.Driver.App
 import AnySyncModel.Driver.Handshake
+import AnySyncModel.Driver.Bytes
 /-!
 `modeld <area>`: reads one operation per line on stdin, prints exactly one line per operation.
 Stateless areas expose `step : String → String`; stateful areas expose
@@ -30,4 +31,5 @@ def main (args : List String) : IO UInt32 := do
   match args with
   | ["app"] => loopPure stdin stdout Driver.App.step; return 0
   | ["handshake"] => loopPure stdin stdout Driver.Handshake.step; return 0
+  | ["bytes"] => loopPure stdin stdout Driver.Bytes.step; return 0
   | _ => IO.eprintln s!"modeld: unknown area {args}"; return 2
